@@ -110,6 +110,17 @@ Definition exp02_index_less : list istep := [IShorterFalse; IDiffLt; IEndLenLt].
 Definition exp02_dominant : list dcond * dres * dres := ([DLenGt1; DDepthEq; DTagEq], DNone, DFirst).
 Definition exp02_final_order : skey := SKIndex.
 
+(* typeFields: the breadth-first collection - the level loop, then the statements of the loop over the fields of a
+   struct, in order; CIndex: how the index sequence of a field is built from its parent's *)
+Definition exp02_level_steps : list cstep := [CSwapLevels; CResetCounts; CVisitOnce].
+Definition exp02_collect_steps : list cstep := [CField; CExportFilter; CTagGet; CSkipMark; CCutName; CIndex IdxFreshCopy; CNameKey; CFollowPtr; COptions; CLegacyList; CRecordField; CCountNext; CQueueOnce].
+
+(* writeValue, TagByteArray: the bytes per element kind of a typed slice, and per dynamic kind of a []any (else: error) *)
+Definition exp02_bytearray_typed : list (list rkind * wop) := [([KBool], WBool01); ([KUint8], WByteOf SUint); ([KInt8], WByteOf SInt)].
+Definition exp02_bytearray_any : list (list rkind * wop) := [([KBool], WBool01); ([KInt8], WByteOf SInt); ([KUint8], WByteOf SUint)].
+(* writeValue, TagIntArray / TagLongArray: the statements of the element loop *)
+Definition exp02_wide_steps : list astep := [AUnwrapIface; AWant nbt_TagInt nbt_TagLongArray nbt_TagLong; ACheckTag; AValue [([KInt32; KInt64], SInt); ([KUint32; KUint64], SUint)]; AWrite [(nbt_TagIntArray, 32); (nbt_TagLongArray, 64)]].
+
 (* Encoder.Encode *)
 Definition exp02_skel_Encoder_Encode : list gstmt := [
   GIf "" "v == nil" [
@@ -603,6 +614,16 @@ Proof. reflexivity. Qed.
 Lemma c02_dominant_ok : c02_dominant = exp02_dominant.
 Proof. reflexivity. Qed.
 Lemma c02_final_order_ok : c02_final_order = exp02_final_order.
+Proof. reflexivity. Qed.
+Lemma c02_level_steps_ok : c02_level_steps = exp02_level_steps.
+Proof. reflexivity. Qed.
+Lemma c02_collect_steps_ok : c02_collect_steps = exp02_collect_steps.
+Proof. reflexivity. Qed.
+Lemma c02_bytearray_typed_ok : c02_bytearray_typed = exp02_bytearray_typed.
+Proof. reflexivity. Qed.
+Lemma c02_bytearray_any_ok : c02_bytearray_any = exp02_bytearray_any.
+Proof. reflexivity. Qed.
+Lemma c02_wide_steps_ok : c02_wide_steps = exp02_wide_steps.
 Proof. reflexivity. Qed.
 Lemma c02_skel_Encoder_Encode_ok : c02_skel_Encoder_Encode = exp02_skel_Encoder_Encode.
 Proof. reflexivity. Qed.
